@@ -497,6 +497,15 @@ func c09Decl(c *Ctx) {
 	if c.Thorough {
 		nS, nF, nP = nS*8, nF*8, nP*8
 	}
+	// every text the REAL parser accepted, with its dump (section AcceptedDeclTexts: the range theorems
+	// parse_produces_wf_… evaluated on the real parser's ASTs at the end of this function)
+	type accText struct{ kind, dump, text string }
+	var accepted []accText
+	accept := func(kind, dump, text string) {
+		if strings.HasPrefix(dump, "some ") {
+			accepted = append(accepted, accText{kind, strings.TrimPrefix(dump, "some "), text})
+		}
+	}
 
 	// ================= struct declarations =================
 	type sCase struct {
@@ -573,6 +582,8 @@ func c09Decl(c *Ctx) {
 			r.hist("decl:struct:not-wf:real=" + strings.SplitN(rp, " ", 2)[0])
 		}
 		inRe := map[string]interface{}{"struct": k.enc, "text": sRe[i]}
+		accept("struct", rp, text)
+		accept("struct", sRealRe[i], sRe[i])
 		if sRealRe[i] != mpRe {
 			mismatch(kParse, "Ast.StructTypes read from a respelled struct differs from the model's parseStruct", bParse, inRe, sRealRe[i], mpRe)
 		}
@@ -629,6 +640,8 @@ func c09Decl(c *Ctx) {
 		}
 		rpRe := c09dDumpFiletype(c, fRe[i])
 		inRe := map[string]interface{}{"filetype": enc, "text": fRe[i]}
+		accept("filetype", rp, text)
+		accept("filetype", rpRe, fRe[i])
 		if rpRe != reps2[2*i+1] {
 			mismatch(kParse, "Ast.UserTypes read from a respelled filetype differs from the model's parseFiletype", bParse, inRe, rpRe, reps2[2*i+1])
 		}
@@ -748,6 +761,8 @@ func c09Decl(c *Ctx) {
 			m2 = "some 0"
 		}
 		r1, r2, _ := c09dDumpStage(c, text)
+		accept("params", r1, text)
+		accept("params", r2, text)
 		if r1 == "none" && (m1 == "none" || m2 == "none") {
 			// both reject
 		} else if r1 != m1 || r2 != m2 {
@@ -769,6 +784,8 @@ func c09Decl(c *Ctx) {
 			inRe := map[string]interface{}{"params": enc1, "chunk_params": enc2, "text": reText}
 			mr1, mr2 := reps3[4*i+2], reps3[4*i+3]
 			q1, q2, _ := c09dDumpStage(c, reText)
+			accept("params", q1, reText)
+			accept("params", q2, reText)
 			if !k.split {
 				mr2 = "some 0"
 			}
@@ -873,9 +890,55 @@ func c09Decl(c *Ctx) {
 		if rp == "other" {
 			continue // outside the modelled slice (more than one declaration)
 		}
+		accept(x.kind, rp, x.wrapped)
 		if rp != reps[i] {
 			mismatch(kParse, "near-miss text ("+x.kind+"): real parser and model reader disagree", bParse,
 				map[string]interface{}{"text": x.text, "parsed_as": x.wrapped}, rp, reps[i])
+		}
+	}
+
+	// ================= accepted texts: the range of the REAL parser =================
+	// Props.C09 section AcceptedDeclTexts: whatever the parser returns for an accepted text satisfies
+	// wf… unless an exception hypothesis (F6b: a help text / out name that is not valid UTF-8) fails.
+	// Evaluated on the real parser's dump of every accepted printed, respelled and near-miss text.
+	// the recorded exception (F6b) on hand-written texts, so that the filter is exercised on every run
+	for _, t := range []string{"struct S(int a \"\\xff\",)", "struct S ( int a \"\" \"\\376\" , )"} {
+		accept("struct", c09dDumpStruct(c, t), t)
+	}
+	for _, t := range []string{wrap("in int a \"\\x80\","), wrap("out int \"h\" \"\\xc3\",")} {
+		d, _, _ := c09dDumpStage(c, t)
+		accept("params", d, t)
+	}
+	hypOp := map[string]string{"struct": "C09.declstrsvalid", "params": "C09.paramsstrsvalid", "filetype": ""}
+	wfOp := map[string]string{"struct": "C09.wfstruct", "params": "C09.wfparams", "filetype": "C09.wffiletype"}
+	reqs = nil
+	for _, a := range accepted {
+		if hypOp[a.kind] != "" {
+			reqs = append(reqs, []string{hypOp[a.kind], a.dump})
+		} else {
+			reqs = append(reqs, []string{"C09.wffiletype", a.dump})
+		}
+		reqs = append(reqs, []string{wfOp[a.kind], a.dump})
+	}
+	reps = c.Drv.AskBatch(reqs)
+	for i, a := range accepted {
+		hyp := hypOp[a.kind] == "" || reps[2*i] == "valid=true"
+		wf := reps[2*i+1] == "wf=true"
+		r.hist(fmt.Sprintf("decl:accepted:%s:hyp=%v,wf=%v", a.kind, hyp, wf))
+		r.count("declacc:"+a.kind+":"+a.dump, true)
+		if hyp && !wf {
+			text := a.text
+			if len(text) > 200 {
+				text = text[:100] + "…(" + strconv.Itoa(len(a.text)) + " bytes)…" + text[len(text)-60:]
+			}
+			dump := a.dump
+			if len(dump) > 300 {
+				dump = dump[:300] + "…"
+			}
+			r.violate(Violation{Kind: "correspondence", Key: "C09:accepted-decl-not-wf",
+				What:  "the real parser accepts a " + a.kind + " text whose AST satisfies the exception hypotheses but not wf (the range theorem evaluated on the real parser's result)",
+				Input: map[string]interface{}{"text": text, "kind": a.kind}, Impl: dump, Model: reps[2*i] + " " + reps[2*i+1],
+				Broken: "Props.C09.parse_produces_wf_" + a.kind + "… (AcceptedDeclTexts)"})
 		}
 	}
 }
